@@ -605,7 +605,13 @@ func shortClass(c string) string {
 	if i := strings.Index(c, ":rounds="); i >= 0 {
 		c = c[:i]
 	}
-	return c
+	if i := strings.Index(c, ":vpkc-"); i >= 0 {
+		c = c[:i] + ":with-VerifiedPublicKeyCallback"
+	}
+	for _, n := range []string{":ed25519:", ":ecdsa256:", ":rsa:", ":edcert:"} {
+		c = strings.Replace(c, n, ":", 1)
+	}
+	return strings.TrimSuffix(c, "+ambiguous")
 }
 
 func saKey(path string) string {
